@@ -5,7 +5,38 @@ package keeper
 // Contracts for the deductive verifier in /verif (govc). Comment-only; compiled only with -tags verif.
 
 //@ contract (*Keeper).getBlockDelay
+//@   pure
 //@   let m = k.GetParams(ctx).MaxExpectedTimePerBlock
 //@   let d = connection.DelayPeriod
 //@   ensures zero: m == 0 ==> result == 0
 //@   ensures ceil: m != 0 ==> result == (d + m - 1) / m
+
+//@ impl modules/core/exported.Prefix = modules/core/23-commitment/types.MerklePrefix
+
+// Each verify function must hand the light client exactly: the connection's client, the proof height, the
+// connection's delay period and the derived block delay (packet proofs) or 0/0 (handshake proofs), the
+// counterparty prefix applied to the ICS-24 key of exactly the given identifiers, and exactly the given value.
+
+//@ contract (*Keeper).VerifyPacketCommitment
+//@   ensures verified: err == nil ==> LCVerifiedMembership(connection.ClientId, height, connection.DelayPeriod, k.getBlockDelay(ctx, connection), box(commitmenttypes.ApplyPrefix(connection.Counterparty.Prefix, commitmenttypes.NewMerklePath(slice1(host.PacketCommitmentKey(portID, channelID, sequence))))), commitmentBytes)
+//@   ensures pure: world(ctx) == old(world(ctx))
+
+//@ contract (*Keeper).VerifyPacketAcknowledgement
+//@   ensures verified: err == nil ==> LCVerifiedMembership(connection.ClientId, height, connection.DelayPeriod, k.getBlockDelay(ctx, connection), box(commitmenttypes.ApplyPrefix(connection.Counterparty.Prefix, commitmenttypes.NewMerklePath(slice1(host.PacketAcknowledgementKey(portID, channelID, sequence))))), sha256(acknowledgement))
+//@   ensures pure: world(ctx) == old(world(ctx))
+
+//@ contract (*Keeper).VerifyPacketReceiptAbsence
+//@   ensures verified: err == nil ==> LCVerifiedNonMembership(connection.ClientId, height, connection.DelayPeriod, k.getBlockDelay(ctx, connection), box(commitmenttypes.ApplyPrefix(connection.Counterparty.Prefix, commitmenttypes.NewMerklePath(slice1(host.PacketReceiptKey(portID, channelID, sequence))))))
+//@   ensures pure: world(ctx) == old(world(ctx))
+
+//@ contract (*Keeper).VerifyNextSequenceRecv
+//@   ensures verified: err == nil ==> LCVerifiedMembership(connection.ClientId, height, connection.DelayPeriod, k.getBlockDelay(ctx, connection), box(commitmenttypes.ApplyPrefix(connection.Counterparty.Prefix, commitmenttypes.NewMerklePath(slice1(host.NextSequenceRecvKey(portID, channelID))))), be64(nextSequenceRecv))
+//@   ensures pure: world(ctx) == old(world(ctx))
+
+//@ contract (*Keeper).VerifyChannelState
+//@   ensures verified: err == nil ==> LCVerifiedMembership(connection.ClientId, height, 0, 0, box(commitmenttypes.ApplyPrefix(connection.Counterparty.Prefix, commitmenttypes.NewMerklePath(slice1(host.ChannelKey(portID, channelID))))), marshalOf(channel))
+//@   ensures pure: world(ctx) == old(world(ctx))
+
+//@ contract (*Keeper).VerifyConnectionState
+//@   ensures verified: err == nil ==> LCVerifiedMembership(connection.ClientId, height, 0, 0, box(commitmenttypes.ApplyPrefix(connection.Counterparty.Prefix, commitmenttypes.NewMerklePath(slice1(host.ConnectionKey(connectionID))))), marshalOf(counterpartyConnection))
+//@   ensures pure: world(ctx) == old(world(ctx))
